@@ -620,7 +620,7 @@ fn run_sched_on(case: &SchedCase, pool: &(ActorThread, ActorThread)) -> Option<S
                 g.aborted_run = true;
                 drop(g);
                 sched.cv.notify_all();
-                let _ = crate::util::catch(|| drop(w.take()));
+                std::mem::forget(w.take()); // its destructor may panic again (poisoned lock) and abort
             }
             set_thread_callback(None);
             sched.block(Actor::Prod, AState::Done);
@@ -785,7 +785,11 @@ fn run_sched_on(case: &SchedCase, pool: &(ActorThread, ActorThread)) -> Option<S
     producer_finished.store(true, Ordering::SeqCst);
     pool.1.thread.unpark();
     pool.1.wait();
-    let _ = crate::util::catch(|| drop(body.lock().unwrap_or_else(|p| p.into_inner()).take()));
+    if panic_slot.lock().unwrap().is_some() {
+        std::mem::forget(body.lock().unwrap_or_else(|p| p.into_inner()).take());
+    } else {
+        let _ = crate::util::catch(|| drop(body.lock().unwrap_or_else(|p| p.into_inner()).take()));
+    }
 
     let g = sched.lock();
     let mut h = crate::util::Fnv(0xcbf2_9ce4_8422_2325);
